@@ -342,8 +342,30 @@ class AliasMod(object):
                 continue
             if x.op == "call" and tm.callee_name(x.a[0]) in ("builtins.len", "builtins.float", "builtins.int", "builtins.str", "np.sum", "np.max", "np.min", "np.mean"):
                 continue
+            if self._scalar_table_element(x):
+                continue
             return False
         return True
+
+    def _scalar_table_element(self, x):
+        """TABLE[k] / TABLE.get(k[, d]) of a module-level table whose values are all numbers, strings or None:
+        `v = TABLE.get(k); v += 1` re-binds v, it does not write the table"""
+        tab = None
+        if x.op == "sub":
+            tab = x.a[0]
+        elif x.op == "call" and tm.callee_name(x.a[0]) == ".get" and x.a[1]:
+            tab = x.a[1][0]
+        if tab is None or tab.op != "glob":
+            return False
+        try:
+            from .constfold import fold
+
+            v = fold(self.S.glob_terms.get(tab.a[0]), self.ctx, {"__module__": tab.a[0].split(".")[0]})
+        except Exception:
+            return False
+        if not isinstance(v, dict) or not v:
+            return False
+        return all(z is None or isinstance(z, (int, float, str, bool)) for z in v.values())
 
     def _alts(self, t):
         out = []
